@@ -99,7 +99,7 @@ def special_cases():
     Xz = np.array([[1., 2., 3.], [0., 0., 0.]])
     out.append(dict(base, n=3, M=3, tol=1e-7, grades=[0, 3], rhs=["special"] * 2, single=False, A=K.tojson(Az),
                     B=K.tojson(np.stack([Az @ Xz[0], np.array([1., 0., 0.])])), X0=K.tojson(Xz)))
-    # the 2x2 witness of C13_keepLastRow_clause_needed: A = [[1,2],[0,1]], b = e2, m = 1: FOM residual 2 > 1 = |r0|
+    # the 2x2 witness of the Lean theorem C13_dropped_row_witness (regression detector `keepLastRow`): A = [[1,2],[0,1]], b = e2, m = 1: FOM residual 2 > 1 = |r0|
     out.append(dict(base, n=2, M=1, tol=1e-7, grades=[2], A=K.tojson(np.array([[1., 2.], [0., 1.]])), B=K.tojson(np.array([[0., 1.]])), X0=K.tojson(np.zeros((1, 2)))))
     # singular Galerkin matrix: A = [[0,1],[1,1]], b = e1, m = 1: H_1 = [0]
     out.append(dict(base, n=2, M=1, tol=1e-7, grades=[2], A=K.tojson(np.array([[0., 1.], [1., 1.]])), B=K.tojson(np.array([[1., 0.]])), X0=K.tojson(np.zeros((1, 2)))))
@@ -368,33 +368,24 @@ def normal_cond(model, c, M, tol, drop_rows=True):
     return float(np.linalg.cond(Hs.conj().T @ Hs + np.eye(M) * 1e-300)) if M else 1.0
 
 
-def compare_real_model(case, real, model):
-    if "exception" in real or "error" in model:
-        if "exception" in real and "Singular" in real["exception"] and "error" not in model and not np.all(np.isfinite(model["x"])):
-            return []       # real raises LinAlgError (singular normal matrix) <-> the model's elimination hits a zero pivot: non-finite values
-        if "exception" in real and "error" not in model and "Singular" in real["exception"]:
-            A, an = K.norms(case)
-            st = model["steps"]
-            if any(np.all(np.isfinite(model["H"][c])) and K.first_small(model["H"][c], st, K.NOISE_REL * an) < st - 1
-                   for c in range(model["H"].shape[0])):
-                return []   # amplified noise after a breakdown: whether the normal matrix is exactly singular is not determined
-        return [f"real={real.get('exception')} model={model.get('error')}"]
+def sub_batch(case, cols):
+    """the same call restricted to the columns `cols` of the batch (always passed as an (n, k) array)"""
+    cplx = case["complex"]
+    B = K.fromjson(case["B"], cplx)
+    X0 = K.fromjson(case["X0"], cplx)
+    c2 = dict(case, B=K.tojson(B[cols]), X0=K.tojson(X0[cols]), single=False)
+    for key in ("grades", "rhs"):
+        if isinstance(case.get(key), list) and len(case[key]) == B.shape[0]:
+            c2[key] = [case[key][c] for c in cols]
+    return c2
+
+
+def compare_columns(case, xreal, model, cols, noise):
+    """column-wise comparison of real solution rows `xreal[i]` with the model's columns `cols[i]` (same number of shared steps)"""
     mism = []
-    if real["iterations"] != model["iterations"]:
-        A, an = K.norms(case)
-        noise = K.NOISE_REL * an
-        st = min(real["iterations"], model["iterations"]) - 1
-        if st >= 1 and all(np.all(np.isfinite(model["H"][c])) and model["H"][c][st, st - 1].real <= noise for c in range(model["H"].shape[0])):
-            return []       # stop decided by `noise > tol*noise` (breakdown in exact arithmetic): not determined by the model
-        return [f"iterations real={real['iterations']} model={model['iterations']}"]
-    k = real["x"].shape[0]
-    if real["products_cols"] != k * model["products"]:
-        mism.append(f"products with A: real {real['products_cols']} columns, model {k} x {model['products']}")
-    A, an = K.norms(case)
-    noise = K.NOISE_REL * an
     steps = model["steps"]
-    for c in range(k):
-        xr, xm = real["x"][c], model["x"][c]
+    for i, c in enumerate(cols):
+        xr, xm = xreal[i], model["x"][c]
         if np.all(np.isfinite(model["H"][c])):
             jn = K.first_small(model["H"][c], steps, noise)
             if jn < steps - 1:
@@ -415,6 +406,56 @@ def compare_real_model(case, real, model):
         if not (d <= tolx):
             mism.append(f"col {c}: |x_real - x_model| = {d:.3e} > {tolx:.3e} (cond(H)^2 = {cond:.2e})")
     return mism
+
+
+SINGULAR_STATS = {"batches": 0, "culprit_columns": 0, "other_columns_recompared": 0, "other_columns_not_comparable_steps_differ": 0}
+
+
+def compare_real_model(case, real, model):
+    if "exception" in real or "error" in model:
+        if "exception" in real and "error" not in model and "Singular" in real["exception"]:
+            # np.linalg.solve raises for the WHOLE batch when ONE member is singular.  PER COLUMN (round 4), on the MODEL's run:
+            #  culprit columns = columns whose model solution is non-finite (the model's elimination hits a zero pivot <-> LinAlgError),
+            #  or whose model H shows stepping after a noise breakdown (whether the normal matrix is exactly singular is then not
+            #  determined).  The exception is explained only by a culprit column; every OTHER column is still compared: the real code
+            #  is re-run on the batch without the culprits and, when it makes the same number of shared steps as the model did on the
+            #  full batch (the columns are coupled only through that number: C13_batch_steps), compared column by column.
+            A, an = K.norms(case)
+            noise = K.NOISE_REL * an
+            st = model["steps"]
+            k = model["H"].shape[0]
+            culprits = [c for c in range(k) if not np.all(np.isfinite(model["x"][c]))
+                        or (np.all(np.isfinite(model["H"][c])) and K.first_small(model["H"][c], st, noise) < st - 1)]
+            if not culprits:
+                return [f"real={real.get('exception')} model={model.get('error')} (no column of the model's run has a zero pivot or a noise breakdown)"]
+            SINGULAR_STATS["batches"] += 1
+            SINGULAR_STATS["culprit_columns"] += len(culprits)
+            others = [c for c in range(k) if c not in culprits]
+            if not others:
+                return []
+            sub = eval_real(sub_batch(case, others))
+            if "exception" in sub:
+                return [f"cols {others}: the model's run has neither a zero pivot nor a noise breakdown in them, but the real code raises on them alone: {sub['exception']}"]
+            if sub["iterations"] != model["iterations"]:
+                SINGULAR_STATS["other_columns_not_comparable_steps_differ"] += len(others)
+                return []       # without the culprit the shared loop makes a different number of steps: another computation
+            SINGULAR_STATS["other_columns_recompared"] += len(others)
+            return compare_columns(case, sub["x"], model, others, noise)
+        return [f"real={real.get('exception')} model={model.get('error')}"]
+    mism = []
+    if real["iterations"] != model["iterations"]:
+        A, an = K.norms(case)
+        noise = K.NOISE_REL * an
+        st = min(real["iterations"], model["iterations"]) - 1
+        if st >= 1 and all(np.all(np.isfinite(model["H"][c])) and model["H"][c][st, st - 1].real <= noise for c in range(model["H"].shape[0])):
+            return []       # stop decided by `noise > tol*noise` (breakdown in exact arithmetic): not determined by the model
+        return [f"iterations real={real['iterations']} model={model['iterations']}"]
+    k = real["x"].shape[0]
+    if real["products_cols"] != k * model["products"]:
+        mism.append(f"products with A: real {real['products_cols']} columns, model {k} x {model['products']}")
+    A, an = K.norms(case)
+    noise = K.NOISE_REL * an
+    return mism + compare_columns(case, real["x"], model, list(range(k)), noise)
 
 
 def spec_check(case, real):
@@ -680,6 +721,10 @@ def run(ctx):
     if gate_err is not None and not ctx.violations:
         common.violation(ctx, {"broken": f"Lean gate of {MODULE}", "detail": gate_err[-3000:]}, no_input=True)
     cov = eng.coverage()
+    cov["distributions"]["singular_exception_per_column"] = dict(SINGULAR_STATS, rule=(
+        "real raises LinAlgError for the whole batch: culprit columns are determined on the MODEL's run (non-finite model solution = zero pivot, "
+        "or stepping after a noise breakdown in the model's H); every other column is re-run through the real code without the culprits and "
+        "compared with the model column by column when the shared step count is unchanged"))
     cov["rule"] = ("invertible A = X D X^-1 as in C15 (normal / nonsym / nonnormal / jordanish, real and complex, n = 1..%d), 1-3 right-hand "
                    "sides (1-D, (n,1) and (n,k) arrays), initial residuals generic / in an invariant subspace of dimension 1-3 (early "
                    "breakdown), x0 = None or random, max_iters = 1..n+3, tol in {1e-3,1e-5,1e-7,1e-8}, plus n = 32, 64 (quick) / 64, 100, 150 "
@@ -704,6 +749,7 @@ def run(ctx):
         "batches: the Arnoldi loop is shared (cond_fun: any column large), so every column is stepped S >= its own single-run count "
         "times; C13_batch_krylov_optimal / C13_batch_exact_at_grade are per column about K_S; the recorded clauses are attributed per "
         "column (a NaN column is explained by zeroResidual only if THAT column has b - A x0 = 0; an exception by the column whose "
-        "normal matrix is singular)"])
+        "normal matrix is singular - determined on the model's run; the remaining columns of such a batch are re-run without the culprit "
+        "and compared column by column, distributions.singular_exception_per_column)"])
     print(json.dumps({"outcomes": cov["outcomes"], "distinct_nontrivial": cov["distinct_nontrivial"], "clauses": cov["distributions"]["clauses"],
                       "gate": (gate or {}).get("obligations"), "wall_s": round(ctx.wall(), 1)}))
